@@ -1164,6 +1164,9 @@ def c03(ctx):
     # nested ifs and calls inside a branch, their results used afterwards (starved in the mixed runs)
     cases += mpcl_cases(ctx, "mpcl-gen-i", "{3, 8}", 5, 1200 if thorough else 200, limit=4000 if thorough else 400,
                         kinds='{"cmp", "ifnest", "logic"}')
+    # structs only: built field by field and as composite literals of constants, fields read and updated
+    cases += mpcl_cases(ctx, "mpcl-gen-j", "{3, 8}", 6, 1500 if thorough else 300, limit=4000 if thorough else 600,
+                        kinds='{"struct"}')
     # expressions of two operators without parentheses (precedence, associativity) next to plain arithmetic
     cases += mpcl_cases(ctx, "mpcl-gen-h", "{3, 8}", 4, 1200 if thorough else 250, limit=4000 if thorough else 500,
                         kinds='{"expr3", "neg", "const"}')
